@@ -81,6 +81,13 @@ def entries(ctx):
                  "mapping": {"partitioning": {"O": {"Q": ["uniform_shape(2)"], "W": ["follow(Q)"]}}, "loop-order": {"O": lo}}}
             add("CONVB/" + "".join(lo), y, "plain")
             es[-1]["must_compile"] = True
+    # flattening of three ranks whose middle (or first / last) rank is created by a dynamic split inside an outer loop
+    for tup in (("M", "K0", "N"), ("K0", "M", "N"), ("M", "N", "K0")):
+        for lo in (["J", "K1", "".join(tup)], ["K1", "J", "".join(tup)]):
+            y = {"einsum": {"declaration": {"A": ["J", "K", "M", "N"], "B": ["K", "N"], "Z": ["J"]}, "expressions": ["Z[j] = A[j, k, m, n] * B[k, n]"]},
+                 "mapping": {"partitioning": {"Z": {"K": ["uniform_occupancy(A.2)"], "(%s)" % ", ".join(tup): ["flatten()"]}}, "loop-order": {"Z": lo}}}
+            add("FLAT3/" + "".join(tup) + "/" + "".join(lo), y, "plain")
+            es[-1]["must_compile"] = True
     for fname, y in yaml_files():
         if "architecture" in y and "bindings" in y:
             add("file:" + fname, y, "metrics")
